@@ -21,14 +21,20 @@ Section Native2Theorems.
     rewrite map_map. cbn. now rewrite map_id.
   Qed.
 
-  (* both repairs off: the converter as read *)
+  Lemma min_off_nodes : forall dv (l : list node), existsb (min_refuses MinOff smin dv) l = false.
+  Proof. intros dv. induction l as [|n r IH]; [reflexivity|]. cbn. exact IH. Qed.
+  Lemma min_off_funcs : forall (fvs : list (func * option Z)),
+    existsb (fun p => existsb (min_refuses MinOff smin (snd p)) (f_nodes (fst p))) fvs = false.
+  Proof. induction fvs as [|p r IH]; [reflexivity|]. cbn [existsb]. now rewrite min_off_nodes, IH. Qed.
+
+  (* all repairs off: the converter as read *)
   Theorem native2_off : forall M t,
-    convert_native2 false false false adapt smin smax fuel M t = convert_native adapt smin smax fuel M t.
+    convert_native2 false false MinOff adapt smin smax fuel M t = convert_native adapt smin smax fuel M t.
   Proof.
     intros M t. unfold convert_native2, convert_native.
     destruct ((t >? smax) || (t <? smin)); [reflexivity|].
     destruct (default_version M) as [dv|]; [|reflexivity].
-    rewrite versions_of_off. cbn [andb orb]. now rewrite conv_funcs2_off.
+    rewrite versions_of_off, min_off_nodes, min_off_funcs. cbn [andb orb]. now rewrite conv_funcs2_off.
   Qed.
 
   Lemma func_version_self : forall dv f, func_self_consistent f = true ->
@@ -115,7 +121,7 @@ End Native2Theorems.
 
 (* ---------------------------------------------------------------- witnesses *)
 Definition std_native2 (own refuse : bool) (fx : flags) (M : model) (t : Z) : mres :=
-  convert_native2 own refuse false (std_adapt fx) supported_min supported_max big_fuel M t.
+  convert_native2 own refuse MinOff (std_adapt fx) supported_min supported_max big_fuel M t.
 
 (* the function written for opset 19 inside the opset-20 model (Std.w-style witness of the refuted theorem) *)
 Definition w_func_opset2 : model := Model (Some 20) None [relu] [Func (Some 19) None [dft_axis1]].
